@@ -113,7 +113,8 @@ class TLCResult(object):
 
 
 _RE_STATES = re.compile(r"(\d+) states generated, (\d+) distinct states found")
-_RE_VERDICT = re.compile(r'^<<"VERDICT", (\d+), \{(.*)\}>>\s*$')
+# TLC pretty-prints long values over several lines: match across newlines
+_RE_VERDICT = re.compile(r'<<\s*"VERDICT",\s*(\d+),\s*\{(.*?)\}\s*>>', re.S)
 _RE_INV = re.compile(r"Error: Invariant (\S+) is violated")
 _RE_PROP = re.compile(r"Error: (?:Action|Temporal) propert(?:y|ies) (\S+)?")
 
@@ -146,12 +147,10 @@ def run_tlc(module, cfg, workdir, env=None, workers=1, heap="3g", timeout=3600,
         res.out = (ex.stdout or b"").decode("utf-8", "replace")
         res.error = "timeout"
     res.wall = time.time() - t0
+    for m in _RE_VERDICT.finditer(res.out):
+        cl = [c.strip().strip('"') for c in m.group(2).split(",") if c.strip()]
+        res.verdicts.append((int(m.group(1)), cl))
     for line in res.out.splitlines():
-        m = _RE_VERDICT.match(line)
-        if m:
-            cl = [c.strip().strip('"') for c in m.group(2).split(",") if c.strip()]
-            res.verdicts.append((int(m.group(1)), cl))
-            continue
         m = _RE_STATES.search(line)
         if m:
             res.generated = int(m.group(1))
